@@ -47,7 +47,21 @@ SPECS = [
     {"ddl": "-- leading comment\nCREATE TABLE j1 (\n  a int, -- trailing a\n  b int\n);\n", "ctor": {"normalize_names": True}},
     {"ddl": "GRANT SELECT ON t TO joe;\nCREATE TABLE k1 (a decimal(10,2) NOT NULL UNIQUE);\nDROP TABLE k0;\n", "ctor": {"silent": False}},
     {"ddl": 'CREATE TABLE "L 1" ("a b" int, "c" varchar(3));\n', "ctor": {"normalize_names": True}},
+    # twins: the *same statement text* in objects that differ only in per-object settings / per-object lexer state, so anything
+    # shared between objects and keyed by the text alone (a cache, a registry) shows
+    {"ddl": 'CREATE TABLE "A1" ("x" int);\nCREATE TABLE "A2" ("y" int) garbage (;\n', "ctor": {"normalize_names": False, "silent": True}},
+    {"ddl": 'CREATE TABLE "A1" ("x" int);\nCREATE TABLE "A2" ("y" int) garbage (;\n', "ctor": {"normalize_names": True, "silent": False}},
+    {"ddl": "CREATE TABLE c1 (a int, b varchar(5) DEFAULT 'c');\nSELECT 1 FROM c1;\nCREATE TABLE c2 (z date);\n", "ctor": {"silent": True}},
+    {"ddl": "GRANT SELECT ON t TO joe;\nCREATE TABLE k1 (a decimal(10,2) NOT NULL UNIQUE);\nDROP TABLE k0;\nCREATE VIEW v AS SELECT 1;\n", "ctor": {"silent": True}},
+    {"ddl": "GRANT SELECT ON t TO joe;\nCREATE TABLE k1 (a decimal(10,2) NOT NULL UNIQUE);\nDROP TABLE k0;\nCREATE VIEW v AS SELECT 1;\n", "ctor": {"silent": False}},
+    {"ddl": "CREATE EXTERNAL TABLE r1 (a string, b string)\nROW FORMAT SERDE 'org.apache.hadoop.hive.serde2.RegexSerDe'\nWITH SERDEPROPERTIES (\n  \"input.regex\" = \"([0-9]+);(.*)\"\n)\nSTORED AS TEXTFILE;\n",
+     "ctor": {}, "run": {"output_mode": "hql"}},
+    {"ddl": "CREATE EXTERNAL TABLE r1 (a string, b string)\nROW FORMAT SERDE 'org.apache.hadoop.hive.serde2.RegexSerDe'\nWITH SERDEPROPERTIES (\n  \"input.regex\" = \"([^ ]*) ([^ ]*)\"\n)\nSTORED AS TEXTFILE;\n",
+     "ctor": {}, "run": {"output_mode": "hql"}},
+    {"ddl": 'CREATE TABLE "B1" ("p" int NOT NULL);\nCREATE SEQUENCE "B2" START 3;\n', "ctor": {"normalize_names": True, "silent": True}},
+    {"ddl": "CREATE TABLE g1 (a int, b string) PARTITIONED BY (c int) STORED AS PARQUET;\n", "ctor": {"normalize_names": True}, "run": {"output_mode": "sql"}},
 ]
+TWINS = [(0, 12), (0, 13), (12, 13), (2, 14), (15, 16), (17, 18), (1, 19), (6, 20)]
 
 
 def solo_references():
@@ -252,7 +266,11 @@ def run_shard(ctx):
     # (1) sequential: all 20 interleavings of (c, r, r) x (c, r, r) for object pairs
     i = 0
     pair_budget = 40 if ctx.tier == "quick" else len(pairs)
-    for a, b in rng.sample(pairs, min(len(pairs), pair_budget)) if ctx.tier == "quick" else pairs:
+    twin_pairs = [(a, b) for a, b in TWINS] + [(b, a) for a, b in TWINS]
+    chosen = (rng.sample(pairs, min(len(pairs), pair_budget)) if ctx.tier == "quick" else pairs)
+    for a, b in twin_pairs + [p for p in chosen if p not in twin_pairs]:
+        if (a, b) in twin_pairs:
+            ctx.obs["twin_pairs_same_text_different_settings"] += 1
         i += 1
         if not ctx.mine(i):
             continue
@@ -269,7 +287,7 @@ def run_shard(ctx):
     # (2) deterministic thread schedules
     nsl = {}
     sched_pairs = [(0, 1), (1, 5), (3, 6), (9, 11), (2, 4), (7, 8), (10, 0), (4, 7), (5, 2), (6, 9), (8, 3), (11, 10)]
-    budget_pairs = sched_pairs[:4] if ctx.tier == "quick" else sched_pairs
+    budget_pairs = (sched_pairs[:4] + [(2, 14), (16, 15)]) if ctx.tier == "quick" else sched_pairs + list(TWINS)
     job = 0
     for a, b in budget_pairs:
         for x in (a, b):
